@@ -34,10 +34,10 @@ def plan(tier, seed):
     i = 100
     n = S(tier, 200, 2000)
     for r in range(n):
-        cases.append(dict(lane='matrix', K=int(rng.integers(1, 7)), lead=pick([[], [4]]), dtype=pick(['float', 'int', 'ties', 'uint8', 'uint16', 'bool', 'int8']), rs=[seed, 17, i])); i += 1
+        cases.append(dict(lane='matrix', K=int(rng.integers(1, 7)), lead=pick([[], [4]]), dtype=pick(['float', 'int', 'ties', 'uint8', 'uint16', 'bool', 'int8', 'float-neg', 'float-neg']), rs=[seed, 17, i])); i += 1
     for r in range(n):
         refk = pick(['onehot-ish', 'continuous', 'soft', 'similar', 'int8-binary', 'bool-binary', 'quiet', 'quiet32'])
-        cases.append(dict(lane='field', K=int(rng.integers(1, 7)), F=int(pick([1, 3, 5, 9, 33, 65])), T=int(rng.integers(2, 40)) if 'binary' not in refk else int(pick([60, 400, 1000])),
+        cases.append(dict(lane='field', K=int(rng.integers(1, 7)), F=int(pick([1, 3, 5, 9, 33, 65, 129, 257])), T=int(rng.integers(2, 40)) if 'binary' not in refk else int(pick([60, 400, 1000])),
                           metric=(pick(METRICS) if not refk.startswith('quiet') else 'cos') if 'binary' not in refk else ('cos' if refk == 'bool-binary' else pick(['cos', 'euclidean'])),   # boolean arrays cannot be subtracted (explicit TypeError)
                           alg=pick(['greedy', 'optimal']),
                           ref=refk, rs=[seed, 18, i])); i += 1
@@ -101,6 +101,8 @@ def run_matrix(case, R):
         sm = rng.standard_normal((*lead, K, K)) * 10 ** rng.uniform(-2, 2)
         if case['rs'][-1] % 4 == 0:
             sm = 1000.0 + 0.01 * rng.uniform(size=(*lead, K, K))       # totals that differ only in the 6th significant digit
+    elif case['dtype'] == 'float-neg':
+        sm = -np.abs(rng.standard_normal((*lead, K, K))) * 10 ** rng.uniform(-2, 2)       # all scores negative (negated distances)
     elif case['dtype'] == 'int':
         sm = rng.integers(-50, 50, size=(*lead, K, K))
     elif case['dtype'] in ('uint8', 'uint16', 'int8'):
